@@ -313,6 +313,14 @@ func (d *Driver) step(in *Instance, op Op, cc string) error {
 		seq := seqOf(in.W.VerifHandler())
 		opErr = in.W.RemoveWallet(ref.ID, cand)
 		if opErr == nil {
+			// the removal is accepted and now runs in the background: until it is done the wallet is still there, and a
+			// wrong passphrase must not be granted anything in that window either (whatever the answer is - passphrase
+			// error or "no such wallet" - it carries no secret: what it returns is searched like every other output)
+			mn, _, perr := in.W.GetMnemonic(ref.ID, cand+"x")
+			outs["mnemonic-while-removing"] = mn
+			if perr != nil {
+				outs["err-while-removing"] = perr.Error()
+			}
 			if err := d.waitIdle(in, seq); err != nil {
 				return err
 			}
